@@ -171,6 +171,7 @@ def run_case(case):
         e = edits.risky_edit(rnd, h.spec, h.objs) if risky else h.propose()
         if e is None:
             continue
+        spec_before = h.spec
         exc = h.apply(e)
         if exc is not None:
             C["after_refused_edit"] += 1
@@ -179,6 +180,17 @@ def run_case(case):
         C["edits_applied"] += 1
         classes.add("edit_" + e.get("kind", "?"))
         evaluate("after " + edits.describe(e))
+        # known finding F3: the network of a pattern that had no job and is given jobs is not recomputed
+        from .c01 import f3_networks
+        nets = f3_networks(spec_before, h.spec)
+        for v in V:
+            if nets and v["kind"].startswith("network energy_footprint !=") and v.get("object") in nets:
+                v["mechanism"] = "F3-network-of-jobless-pattern-not-recomputed"
     shared = classes & {"server_shared_by_patterns", "network_shared", "device_shared", "country_shared", "journey_shared", "job_shared_by_2_patterns"}
     return {"counters": C, "classes": sorted(classes), "violations": V, "nontrivial": bool(shared),
             "digest": observe.digest(observe.snapshot(h.system)), "sample": h.summary() if case["idx"] < 3 else None}
+
+
+def witness(fid):
+    from .c01 import witness as w
+    return w(fid)
